@@ -7,5 +7,5 @@
 import sys, json
 sys.path.insert(0, '/verif')
 from engine.pysym import env
-SPEC = json.loads('{"prop": "C01", "key": "py:EOFError@CodedInputStream._fill_buffer:short-read-schedule", "obligation": "prim.read-no-exception[short-reads]", "job": {"harness": "harness.py.kernels:h_prim_read", "params": {"kind": "uvarint32", "N": 16, "mode": "short"}, "limits": {"budget_s": 240, "max_paths": 40000}, "hooks": null}, "inputs": {"x": 0, "r.p": 16, "r.pre0": 0, "r.pre1": 0, "r.pre2": 0, "r.pre3": 0, "r.pre4": 0, "r.pre5": 0, "r.pre6": 0, "r.pre7": 0, "r.pre8": 0, "r.pre9": 0, "r.pre10": 0, "r.pre11": 0, "r.pre12": 0, "r.pre13": 0, "r.pre14": 0, "r.pre15": 0, "r.t": 1, "r.post0": 0, "r.post1": 0, "r.src.k0": 8}}')
+SPEC = json.loads('{"prop": "C01", "key": "py:EOFError@CodedInputStream._fill_buffer:short-read-schedule", "obligation": "prim.read-no-exception[short-reads]", "job": {"harness": "harness.py.kernels:h_prim_read", "params": {"kind": "uvarint32", "N": 16, "mode": "short"}, "limits": {"budget_s": 240, "max_paths": 40000, "xcheck_every": 40}, "hooks": null}, "inputs": {"x": 0, "r.p": 16, "r.pre0": 0, "r.pre1": 0, "r.pre2": 0, "r.pre3": 0, "r.pre4": 0, "r.pre5": 0, "r.pre6": 0, "r.pre7": 0, "r.pre8": 0, "r.pre9": 0, "r.pre10": 0, "r.pre11": 0, "r.pre12": 0, "r.pre13": 0, "r.pre14": 0, "r.pre15": 0, "r.t": 1, "r.post0": 0, "r.post1": 0, "r.src.k0": 8}}')
 sys.exit(env.replay_main(SPEC))
